@@ -134,6 +134,9 @@ OPS.update(
         "eq_cross_chart": "[(c == x, x == c, c != x, x != c) for x in [c.metadata, c.sync_track, c.sync_track.bpm_events, c.global_events_track, c.instrument_tracks] + tracks(c) + events(c) + event_lists(c)]",
         "in_cross": "[(c in list(l), [x in [c] for x in list(l)[:3]]) for l in event_lists(c)] + [c.metadata in [c], c in [c.metadata], c in tracks(c), c.sync_track in [c]]",
         "eq_cross_parts": "(lambda parts: [a == b for a in parts for b in parts])([c.metadata, c.sync_track, c.global_events_track, c.sync_track.bpm_events] + tracks(c) + events(c)[:8])",
+        # `x in chart` for instruments, difficulties, (instrument, difficulty) pairs, tracks, events (an error is an answer)
+        "in_chart": "[try_(lambda y: y in c, x) for x in list(Instrument) + list(Difficulty) + [(i, d) for i in Instrument for d in Difficulty] + [(d, i) for i in list(Instrument)[:2] for d in Difficulty] + tracks(c) + events(c)[:5] + [0, None, 'GUITAR', ()]]",
+        "in_maps": "[try_(lambda y: (y in c.instrument_tracks, y in dict(c.instrument_tracks)), x) for x in list(Instrument) + [(i, d) for i in Instrument for d in Difficulty][:12]] + [try_(lambda d: [d in v for v in c.instrument_tracks.values()], d) for d in Difficulty]",
         "hash_events": "[hash(e) for e in events(c)]",
         # hashing is asked of EVERYTHING reachable (an unhashable object answers TypeError - that is an answer too),
         # and objects are used as set members / dict keys
